@@ -19,11 +19,31 @@ RULE = (
     ">= 2 or an initially unloaded input. Distinct by digest."
 )
 ASSUMPTIONS = ["reference liveness computed on c.graph by the check", "inputs=True only on blackbox-free circuits (as the property states)"]
-EXHAUSTIVE_NOTE = "core: all circuits with 2 inputs and up to 3 gates from {buf, and} over all fan-in choices and all output markings"
+EXHAUSTIVE_NOTE = "core: dead chains / ladders of 60, 400 and 2500 gates in both storage orders; all circuits with 2 inputs and up to 3 gates from {buf, and} over all fan-in choices and all output markings"
 EXAMPLES = {"quick": 1500, "thorough": 40000}
 
 
+def _big(n, shape):
+    nodes = [["a", "input", [], False], ["b", "input", [], False], ["live", "and", ["a", "b"], True]]
+    prev = "live"
+    for i in range(n):
+        if shape == "chain":
+            nodes.append([f"d{i}", "buf" if i % 2 else "not", [prev], False])
+        else:  # ladder: every rung has two dead loads
+            nodes.append([f"d{i}", "and", [prev, "a"] if i else ["a", "b"], False])
+        prev = f"d{i}"
+    return {"name": "c", "nodes": nodes, "bbtypes": [], "insts": []}
+
+
 def core(ctx):
+    # large dead cones: depth must not matter
+    for n in (60, 400, 2500):
+        for shape in ("chain", "ladder"):
+            for inp in (False, True):
+                yield {"spec": _big(n, shape), "inputs": inp}
+                rev = _big(n, shape)
+                rev["nodes"] = rev["nodes"][::-1]
+                yield {"spec": rev, "inputs": inp}
     # shape enumeration: gates g0..g2, each buf(one earlier node) or and(two earlier nodes)
     import itertools
 
